@@ -90,8 +90,14 @@ def tree_hash():
             for fn in sorted(fs):
                 files.append(os.path.join(root, fn))
     # harness files that influence what is *observed* (oracles.py / report.py only evaluate)
-    for fn in ("gen_app.py", "families.py", "lib_e2e.py", "runner_main.rs", "refmodel.py", "orchestrator.py", "special.py"):
+    for fn in ("gen_app.py", "families.py", "lib_e2e.py", "runner_main.rs", "refmodel.py", "orchestrator.py"):
         files.append(os.path.join(E2E, fn))
+    for fn in sorted(os.listdir(E2E)):
+        if (fn.startswith("fam_") or fn.startswith("gen_app_extra_")) and fn.endswith(".py"):
+            files.append(os.path.join(E2E, fn))
+    shim = f"{VERIF}/engines/shim"
+    if os.path.isdir(shim):
+        files += [os.path.join(shim, fn) for fn in sorted(os.listdir(shim)) if fn.endswith(".c")]
     files.append(f"{VERIF}/engines/e2e_tools/src/bin/bpgen.rs")
     for p in files:
         try:
@@ -167,6 +173,14 @@ def slot_dir(k, root=None):
 
 def ensure_slot(k, root=None):
     s = slot_dir(k, root)
+    lock_same = os.path.exists(f"{s}/Cargo.lock.src-sha") and open(f"{s}/Cargo.lock.src-sha").read() == sha256_file(f"{REPO}/Cargo.lock")
+    if (os.path.exists(f"{s}/metadata.json") and lock_same and os.path.exists(f"{s}/holder/Cargo.toml")
+            and open(f"{s}/holder/Cargo.toml").read() == HOLDER_TOML and not os.path.isdir(f"{s}/target")):
+        # already prepared for this /repo lockfile and this app location: just reset the mutable parts
+        with open(f"{s}/Cargo.toml", "w") as f:
+            f.write(WS_TOML)
+        shutil.rmtree(f"{s}/sdk", ignore_errors=True)
+        return s
     os.makedirs(f"{s}/holder/src", exist_ok=True)
     with open(f"{s}/Cargo.toml", "w") as f:
         f.write(WS_TOML)
@@ -191,6 +205,8 @@ def ensure_slot(k, root=None):
         machinery("cargo metadata failed for a slot workspace")
     with open(f"{s}/metadata.json", "w") as f:
         f.write(meta[-1])
+    with open(f"{s}/Cargo.lock.src-sha", "w") as f:
+        f.write(sha256_file(f"{REPO}/Cargo.lock"))
     return s
 
 
@@ -321,6 +337,20 @@ def generate_all(specs, d, keep_sdk=True):
     with cf.ThreadPoolExecutor(max_workers=NSLOTS) as ex:
         for obs in ex.map(one, specs):
             results[obs["id"]] = obs
+    # A run that hit the time limit while 16 compilers (and whatever else) competed for the machine is
+    # re-run alone with a three times larger limit before it may count as "does not terminate".
+    global PAVEXC_TIMEOUT_S
+    slow = [s for s in specs if results[s["id"]]["timed_out"]]
+    if slow:
+        base = PAVEXC_TIMEOUT_S
+        PAVEXC_TIMEOUT_S = base * 3
+        try:
+            for s in slow[:8]:
+                o = one(s)
+                o["retried_after_timeout"] = True
+                results[s["id"]] = o
+        finally:
+            PAVEXC_TIMEOUT_S = base
     log(f"pavexc: {len(specs)} specs in {time.time() - t0:.1f}s "
         f"({sum(1 for o in results.values() if o['exit'] == 0)} accepted)")
     return results
